@@ -37,6 +37,10 @@ def run(ctx):
     ctx.step(c16.noexcept_rule, ctx, "C20.noexcept")
     ctx.step(noexcept_user, ctx)
     ctx.step(c06.capture, ctx, "C20.deferred")
+    ctx.step(c06.exception_identity, ctx, "C20.deferred-exc")
+    # DelayedObjects: a throwing payload copy inside set_value must not leave the request half-retired
+    from . import c18
+    ctx.step(c18.pair, ctx, "C20.delayed")
     # recovery code (catch handlers included: they run with the locks taken before the try still held) never calls back
     # into an operation that blocks on a mutex the function already owns
     ctx.step(single_step, ctx)
@@ -151,17 +155,37 @@ def single_step(ctx):
                 muts.append((st, acc, user, is_assign))
             delegated = [c for c in f.stmts.values() if c["k"] == "CXXMemberCallExpr" and (c.get("callee") or {}).get("name") in ("store", "operator=")
                          and path(f, f.s(c["obj"])) in ("this", "*this")]
+            if not muts and not delegated:
+                # forwarded to another member (e.g. exchange()): judge the steps that member performs on the payload
+                for c in f.stmts.values():
+                    if c["k"] == "CXXMemberCallExpr" and path(f, f.s(c["obj"])) in ("this", "*this"):
+                        g = fb.callee_fn(f, c)
+                        if g is None or g.rec != cls:
+                            continue
+                        for st in field_refs(g, cls):
+                            if st["m"]["name"] != "m_obj":
+                                continue
+                            acc, user = effective_access(eng, g, st)
+                            if acc in READ_KINDS:
+                                continue
+                            is_assign = user is not None and ((user["k"] == "CXXOperatorCallExpr" and user.get("op") == "=") or
+                                                              (user["k"] == "BinaryOperator" and user.get("op") == "="))
+                            muts.append((st, acc, dict(user or {}, callee=dict((user or {}).get("callee") or {},
+                                         fq="%s() -> %s" % (g.name, ((user or {}).get("callee") or {}).get("fq") or (user or {}).get("k")))), is_assign))
+                        if muts:
+                            f_loc = g
+                            break
             if not muts and delegated:
                 ctx.ob(rid, len(delegated) == 1, f.where, "%s::%s forwards to one replacing operation" % (cls.split("::")[-1], f.name),
                        "", fn=f.label, inst=f.qname)
                 continue
             # at most one modification on any path (an unlocked arm for disabled locking next to the locked one is fine)
-            seq = [(a, b) for a in muts for b in muts if a is not b and f.pos_of(a[0]) and f.pos_of(b[0]) and
-                   f.reach_avoiding(f.pos_of(a[0]), f.pos_of(b[0]), [])]
+            seq = [(a, b) for a in muts for b in muts if a is not b and a[0]["id"] in f.stmts and b[0]["id"] in f.stmts and
+                   f.pos_of(a[0]) and f.pos_of(b[0]) and f.reach_avoiding(f.pos_of(a[0]), f.pos_of(b[0]), [])]
             ok = len(muts) >= 1 and all(m[3] for m in muts) and not seq
             what = ""
             if not ok:
-                what = "; ".join("%s at %s" % ((m[2] or {}).get("callee", {}).get("fq") or (m[2] or {}).get("k") or m[1], f.loc(m[0])) for m in muts) or "no modification found"
+                what = "; ".join("%s" % ((m[2] or {}).get("callee", {}).get("fq") or (m[2] or {}).get("k") or m[1]) for m in muts) or "no modification found"
             ctx.ob(rid, ok, f.where, "%s::%s changes m_obj through a single assignment" % (cls.split("::")[-1], f.name),
                    "" if ok else "payload modified by: %s - a throw between the steps leaves a value that is neither the old nor "
                    "the new one" % what, fn=f.label, inst=f.qname)
